@@ -2,33 +2,69 @@
 //verif:stub regexp.Compile => github.com/kstenerud/go-concise-encoding/cte.c02Compile
 //verif:stub (*regexp.Regexp).FindAllStringSubmatch => github.com/kstenerud/go-concise-encoding/cte.c02Find
 //verif:stub github.com/kstenerud/go-concise-encoding/cte.parseCoord => github.com/kstenerud/go-concise-encoding/cte.c02ParseCoord
-//verif:bounds the one kernel of C02 within reach: time-zone latitude/longitude hundredths, every value in the valid range (latitude -9000..9000, longitude -18000..18000) as solver variables
-//verif:assume the writer prints float64(h)/100 with %.2f and strconv.ParseFloat of that text returns float64(h)/100 again (contract stub for regexp + ParseFloat; the identity is checked natively for every h in range by the replay of any counterexample and by TestC02Contract in the harness); everything else in C02 (string escaping, comments, numeric text, other time forms, whole-document round trips) goes through the ANTLR lexer/parser and is outside reach
+//verif:bounds the one kernel of C02 within reach: time-zone latitude/longitude hundredths, every value in the valid range (latitude -9000..9000, longitude -18000..18000) as solver variables, written by the real cte.Writer.WriteTime and read back by the real parseTimezone
+//verif:assume fmt's %.2f is the engine's fixed-point model (digits of round-half-even(|x|*100) on the exact binary value; tested against strconv on 1.6M values in engine/sym); the regexp is replaced by a splitter at '/', and strconv.ParseFloat by its contract on plain decimal texts (the double nearest to the decimal value, computed as integer/10^k); native replay runs the real regexp and ParseFloat. Everything else in C02 (string escaping, comments, numeric text, other time forms, whole-document round trips) goes through the ANTLR lexer/parser and is outside reach
 package cte
 
 import (
-	"fmt"
 	"regexp"
 
 	compact_time "github.com/kstenerud/go-compact-time"
+	"github.com/kstenerud/go-concise-encoding/internal/verifh"
 	"github.com/kstenerud/go-concise-encoding/internal/verifrt"
 )
 
-var c02Lat, c02Long float64
-
 func c02Compile(expr string) (*regexp.Regexp, error) { return nil, nil }
 
-// the regexp splits "lat/long" into its two number texts
+// Stands for `(-?\d+(\.\d+)?)/(-?\d+(\.\d+)?)$` on "lat/long": groups 1 and 3
+// are the two number texts.
 func c02Find(re *regexp.Regexp, s string, n int) [][]string {
-	return [][]string{{"", "lat", "", "long", ""}}
+	slash := -1
+	for i := 0; i < len(s); i++ {
+		if s[i] == '/' {
+			slash = i
+		}
+	}
+	if slash < 0 {
+		return nil
+	}
+	return [][]string{{s, s[:slash], "", s[slash+1:], ""}}
 }
 
-// strconv.ParseFloat(fmt.Sprintf("%.2f", float64(h)/100)) == float64(h)/100
+// strconv.ParseFloat on a plain decimal text returns the double nearest to the
+// decimal value; for at most 15 significant digits that is integer / 10^k
+// (both exact doubles, one correctly rounded division).
 func c02ParseCoord(str string) float64 {
-	if str == "lat" {
-		return c02Lat
+	neg := false
+	i := 0
+	if len(str) > 0 && str[0] == '-' {
+		neg = true
+		i = 1
 	}
-	return c02Long
+	if i >= len(str) || len(str)-i > 15 {
+		panic("c02ParseCoord: text outside the contract")
+	}
+	var num, den int64 = 0, 1
+	seenDot := false
+	for ; i < len(str); i++ {
+		c := str[i]
+		if c == '.' && !seenDot {
+			seenDot = true
+			continue
+		}
+		if c < '0' || c > '9' {
+			panic("strconv.ParseFloat: invalid syntax")
+		}
+		num = num*10 + int64(c-'0')
+		if seenDot {
+			den *= 10
+		}
+	}
+	f := float64(num) / float64(den)
+	if neg {
+		f = -f
+	}
+	return f
 }
 
 // One coordinate is symbolic per entry (the two are independent in the code;
@@ -36,22 +72,69 @@ func c02ParseCoord(str string) float64 {
 func c02Run(lat, long int) {
 	verifrt.Assume(lat >= -9000 && lat <= 9000)
 	verifrt.Assume(long >= -18000 && long <= 18000)
-	// what the CTE encoder writes (cte.Writer.WriteTime): float64(h)/100 printed with %.2f
-	c02Lat = float64(lat) / 100
-	c02Long = float64(long) / 100
-	text := "/0/0" // under the engine the stubs above stand for regexp + ParseFloat (the leading "/d" selects the lat/long form)
-	if !verifrt.Symbolic() {
-		// native replay: the real text, the real regexp and the real strconv.ParseFloat
-		text = fmt.Sprintf("/%.2f/%.2f", c02Lat, c02Long)
-	}
-	tz := parseTimezone(text)
 	want := compact_time.TZAtLatLong(lat, long)
+	// Reader lemma: the text is the one the writer lemma (c02Writer) proves
+	// WriteTime produces; the native replay takes it from the real writer.
+	text := "12:30:45/" + string(c02Reference(lat)) + "/" + string(c02Reference(long))
+	if !verifrt.Symbolic() {
+		sink := &verifh.Sink{}
+		w := NewWriter()
+		w.SetWriter(sink)
+		w.WriteTime(compact_time.NewTime(12, 30, 45, 0, want))
+		text = string(sink.Buf)
+	}
+	slash := 0
+	for slash < len(text) && text[slash] != '/' {
+		slash++
+	}
+	verifrt.Assert(slash < len(text), "the time text carries a time zone suffix")
+	tz := parseTimezone(text[slash:])
 	verifrt.Reach("parsed")
 	verifrt.Known("KF-C02-latlong-truncated", verifrt.Or(int(tz.LatitudeHundredths) != lat, int(tz.LongitudeHundredths) != long))
 	verifrt.Assert(tz.Type == want.Type, "latitude/longitude time zone form")
 	verifrt.Assert(int(tz.LatitudeHundredths) == lat, "latitude hundredths survive the CTE text")
 	verifrt.Assert(int(tz.LongitudeHundredths) == long, "longitude hundredths survive the CTE text")
 }
+
+// c02Reference renders hundredths as the decimal text sign, whole degrees,
+// '.', two digits (integer arithmetic only).
+func c02Reference(h int) []byte {
+	var out []byte
+	if h < 0 {
+		out = append(out, '-')
+		h = -h
+	}
+	whole, frac := h/100, h%100
+	switch {
+	case whole >= 100:
+		out = append(out, byte('0'+whole/100), byte('0'+whole/10%10), byte('0'+whole%10))
+	case whole >= 10:
+		out = append(out, byte('0'+whole/10), byte('0'+whole%10))
+	default:
+		out = append(out, byte('0'+whole))
+	}
+	return append(out, '.', byte('0'+frac/10), byte('0'+frac%10))
+}
+
+// Writer lemma: the text WriteTime produces for a latitude/longitude zone is
+// "/<lat>/<long>" with each coordinate rendered as sign, degrees, '.', two digits.
+func c02Writer(lat, long int) {
+	verifrt.Assume(lat >= -9000 && lat <= 9000)
+	verifrt.Assume(long >= -18000 && long <= 18000)
+	sink := &verifh.Sink{}
+	w := NewWriter()
+	w.SetWriter(sink)
+	w.WriteTime(compact_time.NewTime(12, 30, 45, 0, compact_time.TZAtLatLong(lat, long)))
+	want := append([]byte("12:30:45/"), c02Reference(lat)...)
+	want = append(want, '/')
+	want = append(want, c02Reference(long)...)
+	verifrt.Reach("written")
+	verifrt.Assert(len(sink.Buf) == len(want), "length of the latitude/longitude text")
+	verifrt.Assert(verifrt.BytesEq(sink.Buf, want), "latitude/longitude are written as sign, degrees, '.', two digits")
+}
+
+func Verif_C02_LatitudeWriter()  { c02Writer(int(verifrt.I16("latitudeHundredths")), 1234) }
+func Verif_C02_LongitudeWriter() { c02Writer(-4321, int(verifrt.I16("longitudeHundredths"))) }
 
 func Verif_C02_LatitudeHundredths() {
 	c02Run(int(verifrt.I16("latitudeHundredths")), 1234)
